@@ -81,7 +81,7 @@ for w, tier in (("u8_u16", "quick"), ("u32_u64", "quick"), ("u8_u32", "quick"), 
          text="into_compressed == bulk ++ LE chunks of state without leading zero words; num_words/num_bits/is_empty/iter_compressed agree; from_compressed inverts it")
     kani(f"ans_io::{w}::import_any", ["C01"], tier=tier, fns=[ST + "from_compressed", ST + "read_initial_state"],
          text="from_compressed(d) refused iff d ends in a zero word; else inv holds and into_compressed returns d")
-    kani(f"ans_io::{w}::binary_roundtrip", ["C04", "C18", "C08"], tier=tier,
+    kani(f"ans_io::{w}::binary_roundtrip", ["C04", "C18", "C08", "C01"], tier=tier,
          fns=[ST + "from_binary", ST + "into_binary", ST + "get_binary", ST + "num_valid_bits", "stack.rs::CoderGuard<SEALED=true>::{new,drop}"],
          text="for ANY words d (incl. trailing zero words, empty): into_binary(from_binary(d)) == d; num_valid_bits == wb*|d|; get_binary shows d and restores the coder")
     kani(f"ans_io::{w}::binary_export_any", ["C04"], tier=tier, fns=[ST + "into_binary", ST + "from_binary"],
@@ -137,13 +137,13 @@ QE = "queue.rs::<RangeEncoder as Encode>::encode_symbol"
 QD = "queue.rs::<RangeDecoder as Decode>::decode_symbol"
 Q = "queue.rs::"
 for p, tier in (("p8", "quick"), ("p3", "quick"), ("p5", "thorough"), ("p1", "thorough")):
-    kani(f"range::u8_u16_{p}::enc_step_refines", ["C06"], tier=tier, fns=[QE], timeout=1200,
+    kani(f"range::u8_u16_{p}::enc_step_refines", ["C06", "C02", "C11"], tier=tier, fns=[QE], timeout=1200,
          text="under abs: L' = L + scale*cum, R' = scale*p, renormalise by one word iff R' < 2^(sb-wb); representation invariant kept; any held-back situation (n_inv<=3)")
     kani(f"range::u8_u16_{p}::enc_potential", ["C12"], tier=tier, fns=[QE], timeout=1200,
          text="|bulk|+n_inv grows by <= 1 per symbol; range*p*2^k <= range'*2^P*(2^k+1)")
     kani(f"range::u8_u16_{p}::enc_impossible", ["C09"], tier=tier, fns=[QE],
          text="symbol outside the model => Err(ImpossibleSymbol); bulk, state, situation unchanged")
-    kani(f"range::u8_u16_{p}::seal_suffix", ["C11", "C02", "C18", "C12"], tier=tier, fns=[Q + "RangeEncoder::seal", Q + "RangeEncoder::into_compressed", Q + "RangeEncoder::num_seal_words", Q + "RangeEncoder::num_words"],
+    kani(f"range::u8_u16_{p}::seal_suffix", ["C11", "C02", "C18", "C12", "C06"], tier=tier, fns=[Q + "RangeEncoder::seal", Q + "RangeEncoder::into_compressed", Q + "RangeEncoder::num_seal_words", Q + "RangeEncoder::num_words"],
          text="for every encoder state (all situations, n_inv<=2) and EVERY continuation of the sealed words: L <= X < L+R; 1..2 seal words; num_words == words written")
     kani(f"range::u8_u16_{p}::empty_message", ["C02", "C18"], tier=tier, fns=[Q + "RangeEncoder::seal", Q + "RangeEncoder::is_empty"], text="empty message seals to no words")
     kani(f"range::u8_u16_{p}::enc_pos", ["C07"], tier=tier, fns=[Q + "<RangeEncoder as Pos>::pos"], text="pos() == (backend pos + n_inv, state) for any n_inv")
@@ -217,8 +217,8 @@ kani("bits::stack_import_any", ["C16", "C18"], fns=[S + "StackCoder::from_compre
      text="for any last word w != 0: content = bits of w below its highest set bit (zero word refused)")
 kani("bits::queue_roundtrip", ["C16", "C18"], fns=[S + "QueueEncoder::write_bit", S + "QueueEncoder::into_compressed", S + "QueueDecoder::read_bit", S + "QueueDecoder::maybe_exhausted"],
      text="export == LSB-first packing zero padded; decoder yields the bits in order, then padding zeros, then None")
-kani("bits::stack_guard", ["C08"], fns=[S + "StackCoderGuard::new", S + "StackCoderGuard::drop"], text="guard view == export; after drop, write+export == uninspected twin")
-kani("bits::queue_guard", ["C08"], fns=[S + "QueueEncoderGuard::new", S + "QueueEncoderGuard::drop"], text="guard view == export; after drop, write+export == uninspected twin")
+kani("bits::stack_guard", ["C08", "C16"], fns=[S + "StackCoderGuard::new", S + "StackCoderGuard::drop"], text="guard view == export; after drop, write+export == uninspected twin")
+kani("bits::queue_guard", ["C08", "C16"], fns=[S + "QueueEncoderGuard::new", S + "QueueEncoderGuard::drop"], text="guard view == export; after drop, write+export == uninspected twin")
 kani("bits::exp_golomb_u8", ["C16"], tier="thorough", timeout=1800, fns=["symbol/exp_golomb.rs::ExpGolomb::{encode_symbol_prefix,encode_symbol_suffix,decode_symbol}"],
      text="for every u8 value incl. MAX: prefix bits == textbook codeword; queue and stack round trips return the value")
 kani("bits::exp_golomb_u16", ["C16"], tier="thorough", timeout=3600, fns=["symbol/exp_golomb.rs::ExpGolomb<u16>"], text="same for every u16 value")
@@ -336,7 +336,7 @@ lemma("lemmas_range_interval.rs", ["C02", "C07", "C11"])
 lemma("lemmas_range_bridge.rs", ["C02", "C06", "C11"])
 lemma("lemmas_seal.rs", ["C11", "C02"])
 lemma("lemmas_chain.rs", ["C13"])
-kani("range::guard_u8_u16", ["C08", "C18"], timeout=900, fns=[Q + "EncoderGuard::{new,drop}", Q + "RangeEncoder::{seal,unseal,num_seal_words,num_words,get_compressed}"],
+kani("range::guard_u8_u16", ["C08", "C18", "C02"], timeout=900, fns=[Q + "EncoderGuard::{new,drop}", Q + "RangeEncoder::{seal,unseal,num_seal_words,num_words,get_compressed}"],
      text="view == into_compressed() of a twin (all situations, n_inv<=2, pre-filled sink); drop restores bulk/state/situation")
 kani("models::float_view_uniform_u16_p12", ["C18"], fns=[M + "model.rs::EncoderModel::floating_point_probability"],
      text="floating_point_probability * 2^P == probability exactly; 0 outside the support")
@@ -397,10 +397,10 @@ kani("models::quantizer_search_i8", ["C03", "C10", "C20"], kind="bounded", bound
 # models::generic_decoder_* / generic_encoder_* (to_generic_decoder_model / to_generic_encoder_model on 2-symbol tables) exhaust
 # CBMC's memory (Vec::extend over an impl-Iterator chain; hashbrown): measured, not registered.  The conversions are
 # covered only through symbol_table (rows == encoder view), from which both conversions are built.
-kani("models::lazy_vs_eager_small_p8", ["C05", "C03"], kind="bounded", bound="3 entries from {0,0.5,1,3}", timeout=900,
+kani("models::lazy_vs_eager_small_p8", ["C05", "C03", "C10"], kind="bounded", bound="3 entries from {0,0.5,1,3}", timeout=900,
      fns=[M + "categorical/lazy_contiguous.rs::LazyContiguousCategoricalEntropyModel::{from_floating_point_probabilities_fast,left_cumulative_and_probability,quantile_function}"])
 for p, tier in (("p5", "quick"), ("p8", "quick"), ("p3", "thorough")):
-    kani(f"chain::u8_u16_{p}::new_heads", ["C13", "C14", "C20"], tier=tier, fns=[CH + "ChainCoderHeads::new", CH + "ChainCoder::from_binary", CH + "ChainCoder::from_compressed"],
+    kani(f"chain::u8_u16_{p}::new_heads", ["C13", "C14", "C20", "C10"], tier=tier, fns=[CH + "ChainCoderHeads::new", CH + "ChainCoder::from_binary", CH + "ChainCoder::from_compressed"],
          text="fresh coder: remainders head takes the fewest words reaching 2^(sb-wb-P); compressed head empty; Err iff data cannot fill the head")
 kani("models::fast_f32_rejects_bad_entries", ["C19"], fns=[M + "categorical.rs::fast_quantized_cdf"],
      text="any NaN or negative entry => Err, for every (also caller-supplied) normalisation")
@@ -638,6 +638,9 @@ verus_unit(
 QF = [M + "quantize.rs::<LeakilyQuantizedDistribution as DecoderModel>::quantile_function"]
 kani("models::quantizer_search_small_u8", ["C03", "C10", "C20"], kind="bounded", bound="supports of <= 8 u8 symbols anywhere in the type (incl. at 0 and 255); step-shaped CDFs; all hints, quantiles", timeout=1500, fns=QF,
      text="search terminates, symbol in support, interval holds the quantile, == encoder view; wrong hints and supports touching Symbol::MIN/MAX included")
+kani("models::quantizer_search_i8_wide", ["C10", "C03"], kind="bounded", bound="support -100..=100 (i8, wider than half the type), step-shaped CDFs, hints below/inside/above the support, every quantile", timeout=2400, fns=QF,
+     loop_contract=(["C10", "C03"], "quantile_function's search loops finish within 40 iterations: <= 8 doublings + <= 8 halvings + <= 8 binary-search steps per phase"),
+     text="terminates within the loop contract; symbol in support; interval holds the quantile; == encoder view")
 kani("models::quantizer_search_small_i8", ["C03", "C10", "C20"], kind="bounded", bound="supports of <= 8 i8 symbols anywhere in the type; step-shaped CDFs", timeout=3600, tier="thorough", fns=QF)
 kani("models::quantizer_search_u8_full", ["C03", "C10", "C20"], kind="bounded", bound="support 0..=255, step-shaped CDFs", timeout=3600, tier="thorough", fns=QF)
 kani("models::quantizer_search_u8_top", ["C03", "C10", "C20"], kind="bounded", bound="support 100..=255, step-shaped CDFs", timeout=3600, tier="thorough", fns=QF)
